@@ -6,6 +6,7 @@ import (
 	"context"
 	"encoding/json"
 	"fmt"
+	apierrors "k8s.io/apimachinery/pkg/api/errors"
 	"os"
 	"sort"
 	"strings"
@@ -52,20 +53,22 @@ const ttl = 5 * time.Minute
 
 // pw: the real pod controller and the real PodENI controller (+ its collectors) on a fake API server and the simulated cloud.
 type pw struct {
-	cfg     pwCfg
-	c       client.Client
-	cloud   *simcloud.Cluster
-	pc      *podctl.ReconcilePod
-	ec      *ReconcilePodENI
-	gen     map[int]int
-	node    map[int]string
-	events  []string
+	cfg          pwCfg
+	c            client.Client
+	cloud        *simcloud.Cluster
+	pc           *podctl.ReconcilePod
+	ec           *ReconcilePodENI
+	gen          map[int]int
+	node         map[int]string
+	events       []string
 	failCreateCR bool
-	prevPhase map[string]string
-	hadCR     map[string]bool
-	logMark   int
-	created   map[string]bool // interfaces created by the pod controller (by id)
-	lastCR    map[string]*v1beta1.PodENI
+	failPodGet   bool // one-shot: the next read of a Pod object BY A CONTROLLER fails with a server error
+	inCtl        bool // a controller entry point is running (the harness's own reads never fail)
+	prevPhase    map[string]string
+	hadCR        map[string]bool
+	logMark      int
+	created      map[string]bool // interfaces created by the pod controller (by id)
+	lastCR       map[string]*v1beta1.PodENI
 }
 
 func newPW(cfg pwCfg) *pw {
@@ -96,6 +99,12 @@ func newPW(cfg pwCfg) *pw {
 				return fmt.Errorf("simulated API server failure creating the PodENI")
 			}
 			return c.Create(ctx, obj, opts...)
+		}, Get: func(ctx context.Context, c client.WithWatch, key client.ObjectKey, obj client.Object, opts ...client.GetOption) error {
+			if _, ok := obj.(*corev1.Pod); ok && w.failPodGet && w.inCtl {
+				w.failPodGet = false
+				return apierrors.NewInternalError(fmt.Errorf("simulated API server failure reading pod %s", key.Name))
+			}
+			return c.Get(ctx, key, obj, opts...)
 		}}).Build()
 	w.restart()
 	return w
@@ -142,8 +151,8 @@ func (w *pw) Enabled() []string {
 		}
 	}
 	evs = append(evs, "gcCR", "gcENI", "clock+61s", "clock+ttl-1s", "clock+ttl+1s", "clock+10m1s")
-	if w.cfg.Faults && len(w.cloud.Armed) == 0 && !w.failCreateCR {
-		evs = append(evs, "fault:Create:before", "fault:Attach:before", "fault:Detach:before", "fault:Delete:before", "fault:Delete:after", "fault:crCreate")
+	if w.cfg.Faults && len(w.cloud.Armed) == 0 && !w.failCreateCR && !w.failPodGet {
+		evs = append(evs, "fault:Create:before", "fault:Attach:before", "fault:Detach:before", "fault:Delete:before", "fault:Delete:after", "fault:crCreate", "fault:podGet")
 	}
 	return evs
 }
@@ -160,7 +169,7 @@ func (w *pw) Apply(x *vrt.Exec, evn string) {
 			w.hadCR[cr.Name] = true
 		}
 	}
-	liveUID := map[string]string{}   // uid -> pod name, pods that exist and have not exited
+	liveUID := map[string]string{} // uid -> pod name, pods that exist and have not exited
 	for i := range w.cfg.Kinds {
 		if p := w.pod(i); p != nil && p.Status.Phase != corev1.PodSucceeded && p.Status.Phase != corev1.PodFailed {
 			liveUID[string(p.UID)] = p.Name
@@ -203,7 +212,7 @@ func (w *pw) Apply(x *vrt.Exec, evn string) {
 			case "two-fixed-rev": // the keep-saying allocation listed BEFORE the one whose TTL expires
 				first, second = `{"type":"Fixed","releaseStrategy":"Never"}`, first
 			case "two-ttl": // a long TTL listed before a short one
-				first, second = fmt.Sprintf(`{"type":"Fixed","releaseStrategy":"TTL","releaseAfter":%q}`, (10 * ttl).String()), first
+				first, second = fmt.Sprintf(`{"type":"Fixed","releaseStrategy":"TTL","releaseAfter":%q}`, (10*ttl).String()), first
 			}
 			anno[types.PodNetworks] = fmt.Sprintf(`{"podNetworks":[{"interface":"eth0","vSwitchOptions":["vsw-1"],"securityGroupIDs":["sg-1"],"allocationType":%s},{"interface":"eth1","vSwitchOptions":["vsw-1"],"securityGroupIDs":["sg-1"],"allocationType":%s}]}`, first, second)
 		}
@@ -219,14 +228,22 @@ func (w *pw) Apply(x *vrt.Exec, evn string) {
 			_ = w.c.Status().Update(ctx, p)
 		}
 	case "reconcilePod":
+		w.inCtl = true
 		_, _ = w.pc.Reconcile(ctx, req)
+		w.inCtl = false
 	case "reconcilePodENI":
+		w.inCtl = true
 		_, _ = w.ec.Reconcile(ctx, req)
+		w.inCtl = false
 	case "gcCR":
+		w.inCtl = true
 		w.ec.gcCRPodENIs(ctx)
+		w.inCtl = false
 	case "gcENI":
+		w.inCtl = true
 		w.ec.gcSecondaryENI(ctx)
 		w.ec.gcMemberENI(ctx)
+		w.inCtl = false
 	case "clock+61s":
 		vrt.Advance(61 * time.Second)
 	case "clock+ttl-1s":
@@ -238,6 +255,8 @@ func (w *pw) Apply(x *vrt.Exec, evn string) {
 	case "fault":
 		if f[1] == "crCreate" {
 			w.failCreateCR = true
+		} else if f[1] == "podGet" {
+			w.failPodGet = true
 		} else {
 			w.cloud.Armed[f[1]] = f[2]
 		}
@@ -405,7 +424,7 @@ func (w *pw) Canon() string {
 		}
 		ages = append(ages, id+":"+a)
 	}
-	return fmt.Sprintf("%v CLOUD:%s AGES:%v armed=%s failCR=%v", parts, w.cloud.Canon(), ages, armed, w.failCreateCR)
+	return fmt.Sprintf("%v CLOUD:%s AGES:%v armed=%s failCR=%v failPodGet=%v", parts, w.cloud.Canon(), ages, armed, w.failCreateCR, w.failPodGet)
 }
 
 // closure: healthy loop from the current state
@@ -413,6 +432,7 @@ func (w *pw) closure(x *vrt.Exec, hist []string) {
 	h := strings.Join(hist, " ; ")
 	w.cloud.Armed = map[string]string{}
 	w.failCreateCR = false
+	w.failPodGet = false
 	ctx := context.Background()
 	// remember what must survive
 	type keep struct{ eni, ip string }
@@ -581,7 +601,7 @@ func (w *pw) alphabet() []string {
 	}
 	evs = append(evs, "gcCR", "gcENI", "clock+61s", "clock+ttl-1s", "clock+ttl+1s", "clock+10m1s")
 	if w.cfg.Faults {
-		evs = append(evs, "fault:Create:before", "fault:Attach:before", "fault:Detach:before", "fault:Delete:before", "fault:Delete:after", "fault:crCreate")
+		evs = append(evs, "fault:Create:before", "fault:Attach:before", "fault:Detach:before", "fault:Delete:before", "fault:Delete:after", "fault:crCreate", "fault:podGet")
 	}
 	return evs
 }
